@@ -224,3 +224,9 @@ def run(ctx):
                 )
     if nsh < 3:
         raise AnalysisError(f"only {nsh} SHALLOW-validated library tasks found (subrun, subrun_root_task, no_prov, script expected)", "check_valid")
+
+    # ---- C38.8 (the obligations of C26.4, which this property depends on as well) ----
+    from ..report import BorrowCtx
+    from . import C26 as _borrowed_C26
+
+    _borrowed_C26.run(BorrowCtx(ctx, {"C26.4": "C38.8"}))
